@@ -726,7 +726,8 @@ def _m5_swallowed(ck: Check) -> None:
                 b_ = getattr(par, fld, None)
                 if isinstance(b_, list) and t in b_:
                     after = b_[b_.index(t) + 1:]
-            read_later = {y.id for st in after + t.orelse for y in ast.walk(st) if isinstance(y, ast.Name) and isinstance(y.ctx, ast.Load)}
+            # (the `else` clause of the try runs only when the request succeeded)
+            read_later = {y.id for st in after for y in ast.walk(st) if isinstance(y, ast.Name) and isinstance(y.ctx, ast.Load)}
             probs = []
             for h in t.handlers:
                 leaves = bool(h.body) and isinstance(h.body[-1], (ast.Continue, ast.Break, ast.Return, ast.Raise))
